@@ -136,9 +136,13 @@ def check_builtin_operands(ctx, prog, tag):
                     asserted.add(g.path)
         for c in f.calls():
             kind = "iterates" if c.name in M10_ITER else ("prints" if c.name in M10_PRINT else None)
+            # turning the operand into text is printing it (`v.to_string()`, seed C12-7): the `String` parameter type
+            # would have asked the mode, a raw `&Value` does not
+            if kind is None and c.path == "alloc::string::ToString::to_string" and (c.self_ty or {}).get("adt") == "minijinja::value::Value":
+                kind = "prints"
             if kind is None or not c.args:
                 continue
-            arg = c.args[0] if kind == "iterates" else c.args[-1]
+            arg = c.args[0] if (kind == "iterates" or c.path == "alloc::string::ToString::to_string") else c.args[-1]
             if "c" in arg:
                 continue
             os_ = flow.origins(f, arg, through_calls=flow._xpass)
@@ -186,14 +190,21 @@ def run(ctx):
                 if c.name == "<minijinja::utils::UndefinedBehavior as core::cmp::PartialEq>::eq":
                     readers.add(f.path)
         ctx.floor("C12.M1 functions reading the mode discriminant" + tag, len(readers), 5)
-        for r in sorted(readers):
-            ctx.ob("C12.M1.mode-reader-is-reviewed", tag + r, r in READERS,
-                   "a new function branches on the undefined behavior: its decision table is not verified to be "
-                   "monotone", prog.fn(r).loc)
+        pending_readers = sorted(readers)
 
-        # ---- M1/M2: tables
+        # ---- M1/M2: tables.  Each decision function is read through the private helpers it may have been split into
+        # (`inline.view`); the functions the tables and the other rules know by name stay calls
+        from .. import inline as _inl
+        KEEP = ("handle_undefined", "is_true", "assert_iterable", "assert_value_not_undefined", "try_iter", "format",
+                "is_undefined", "is_default_formatter", "eq", "fmt", "clone")
+        tabled = {}
+
+        def V(path):
+            v = _inl.view(prog, prog.fn(path), keep=KEEP)
+            tabled[path] = v
+            return v
         tables = {}
-        hu = prog.fn(H + "handle_undefined")
+        hu = V(H + "handle_undefined")
 
         def classify_hu(o, adt):
             if o.kind != "arg":
@@ -215,14 +226,14 @@ def run(ctx):
         for hname, expect, label in (("is_true", expect_truth, "truth-test"),
                                      ("assert_iterable", expect_strictish, "iteration"),
                                      ("assert_value_not_undefined", expect_strictish, "coercion")):
-            f = prog.fn(H + hname)
+            f = V(H + hname)
             t = helper_table(prog, f)
             for (mode, cls), v in sorted(t.items()):
                 tables[(hname, mode, cls)] = v
                 want = {"err"} if expect(mode, cls) else {"ok"}
                 ctx.ob("C12.M2.matrix-%s" % label, "%s%s|%s|%s" % (tag, hname, mode, cls), set(v) == want,
                        "computed outcome %s, documented %s" % (sorted(v), sorted(want)), f.loc)
-        ff = prog.fn(FORMAT)
+        ff = V(FORMAT)
         t = helper_table(prog, ff, mode_arg_proj=("undefined_behavior",), value_arg=2)
         for (mode, cls), v in sorted(t.items()):
             tables[("format", mode, cls)] = v
@@ -246,7 +257,7 @@ def run(ctx):
                        [m for m, fz in zip(ORDER, forced) if fz], ORDER, [sorted(c) for c in conts]), "")
         # mode tests inside the interpreter loop (strict_undefined flag of the Emit fast path, Slice): each
         # `matches!(mode, ..)` must select an upward-closed set of modes
-        ev = prog.fn(EI)
+        ev = V(EI)
         sets = []
         for bb in sorted(ev.reachable):
             if ev.term(bb)["k"] != "switch":
@@ -259,9 +270,25 @@ def run(ctx):
                 ctx.ob("C12.M1.interpreter-mode-test-upward-closed", "%seval_impl|%s" % (tag, "+".join(sorted(mv))), up,
                        "the interpreter tests the mode against %s, which is not an upward-closed set of %s" % (sorted(mv), ORDER),
                        ev.where(bb))
+        # M1 (readers): a function that branches on the mode is one of the reviewed decision functions, whose tables
+        # were just computed - or a crate-private helper of such functions that the tables above looked through
+        for r in pending_readers:
+            okr = r in READERS
+            whyr = "a new function branches on the undefined behavior: its decision table is not verified to be monotone"
+            if not okr:
+                g = prog.fn(r)
+                sites = prog.callers().get(r, [])
+                if not g.is_pub and sites and all(
+                        c.fn.path in tabled and r in _inl.inlined_helpers(tabled[c.fn.path]) for c in sites):
+                    okr = True
+                else:
+                    whyr += " (it is not a private helper that only the tabled decision functions call: callers %s)" % sorted(
+                        {c.fn.path.split("::")[-1] for c in sites})
+            ctx.ob("C12.M1.mode-reader-is-reviewed", tag + r, okr, whyr, prog.fn(r).loc)
         ctx.ob("C12.M2.emit-fast-path-strict-set", tag + "eval_impl|strict_undefined", {"Strict", "SemiStrict"} in sets,
                "no test for exactly {Strict, SemiStrict} (printing an undefined) found; tests: %s" % [sorted(x) for x in sets],
                ev.loc)
+        ev = prog.fn(EI)
         # ---- M7: printing decides undefined-ness on every path.  Whatever else the Emit handler looks at (output
         # mode, formatter kind), each path through it passes the {Strict, SemiStrict} test or hands the value to the
         # formatter, which makes the same decision; a path that skips both prints/drops an undefined silently.
@@ -284,6 +311,16 @@ def run(ctx):
         # GetItem handlers the None side of the lookup passes handle_undefined(x.is_undefined()) with x the value that
         # was looked into, before anything is pushed.
         HU = "minijinja::utils::UndefinedBehavior::handle_undefined"
+        # the handlers are read through helpers a maintainer may have moved the tail of the lookup into (the functions
+        # this rule looks for stay calls)
+        from .. import inline
+        ev0, regs0 = ev, regs
+        ev = inline.view(prog, ev0, keep=("handle_undefined", "get_attr_fast", "get_item_opt", "get_item", "get_attr", "is_undefined",
+                                          "push", "pop", "slice", "validate", "peek"))
+        if ev is not ev0:
+            disp8 = arms.enum_switches(prog, ev, INSTR)
+            ctx.need(disp8, "C12.M8: dispatch switch not found in the helper-transparent view")
+            regs = arms.arm_regions(prog, ev, disp8[0][0], INSTR)
         for v, lk in (("GetAttr", "get_attr_fast"), ("GetItem", "get_item_opt")):
             reg = regs.get(v, set())
             looks = [c for c in arms.calls_in(ev, reg) if c.name.split("::")[-1] == lk]
@@ -334,6 +371,7 @@ def run(ctx):
             ctx.ob("C12.M8.failed-lookup-asks-the-mode-about-the-container", tag + "eval_impl|Slice", ok_s,
                    "the Slice handler slices an undefined value unless the mode is Strict (`missing[1:]` is `[]` under SemiStrict "
                    "and Lenient): like item access it has to ask handle_undefined about the sliced value", ev.loc)
+        ev, regs = ev0, regs0
         # ---- M3
         n3 = 0
         for f in prog.fns.values():
@@ -384,6 +422,11 @@ def run(ctx):
                     if t.get("adt") == UB:
                         n4 += 1
                         ok = c.name in MODE_SINKS or c.name.startswith("core::fmt::") or c.name.endswith("::clone")
+                        if not ok:
+                            # a function of the engine with a body: what it does with the mode is under these same
+                            # rules (branching: M1, passing on: M4, casting: below), the mode stays typed all the way
+                            g = prog.fns.get(c.resolved or c.path or "")
+                            ok = g is not None and g.crate == f.crate and not g.is_pub
                         ctx.ob("C12.M4.mode-passed-only-to-reviewed-functions", "%s%s|%s" % (tag, f.path, c.name), ok,
                                "the undefined behavior is handed to %s: it may influence data, not only fail/continue"
                                % c.name, f.where(c.bb))
